@@ -297,10 +297,12 @@ func runCRLHistory(h *Harness, cfg histCfg) {
 	}
 	// a location whose URL differs from L1's only in the letter case of the path: a different resource (RFC 3986),
 	// here one that mostly fails to deliver a CRL (and has its own content when it does). It must not be mistaken for L1.
-	if tp.Chance(1, 3) {
+	var lc *hLoc
+	if tp.Chance(1, 2) {
 		// (letter case of the path, a query string, a path parameter: all of them select another resource)
-		lc := mk("L1c", Pick(tp, "http://crl.sim/A.CRL", "http://crl.sim/a.crl?ca=2", "http://crl.sim/a.crl;v=2", "http://crl.sim/A.CRL"), w.A, 3, "cdp")
+		lc = mk("L1c", Pick(tp, "http://crl.sim/A.CRL", "http://crl.sim/a.crl?ca=2", "http://crl.sim/a.crl;v=2", "http://crl.sim/a.crl?ca=2&fmt=der"), w.A, 3, "cdp")
 		lc.cdpKind, lc.cdp = "own", []string{lc.URL}
+		l1.cdpKind, l1.cdp = "own", []string{l1.URL} // certificates of both name exactly one distribution point
 		lc.State = Pick(tp, oDown, oHTTP404, oGarbage)
 		lc.neverGood = true
 	}
@@ -412,6 +414,15 @@ func runCRLHistory(h *Harness, cfg histCfg) {
 			func() { r.handshakeWith(mn, ml, "only", ml.Cur, Pick(tp, "own", "none"), strict, mode) },
 			func() { r.handshakeWith(mn, ml, "twin", 0, "none", strict, mode) },
 		)
+	}
+	// the near-twin of L1 is first used right after L1 itself (in half of the runs in which it exists): whatever the
+	// validator knows about L1 by then says nothing about the twin
+	if lc != nil && tp.Chance(2, 3) {
+		pre := []func(){
+			func() { r.handshakeWith(mn, l1, "never", 0, "own", strict, mode) },
+			func() { r.handshakeWith(mn, lc, Pick(tp, "common", "common", "never"), 0, "own", strict, mode) },
+		}
+		script = append(pre, script...)
 	}
 	nev := cfg.histLen + tp.Int(cfg.histLen)
 	for e := 0; e < nev+len(script); e++ {
